@@ -12,6 +12,8 @@ CONSTANTS
   MaxLeaves = 3
   Eps = {0}
   Opts = {0}
+  MaxPSize = 0
+  MaxPDepth = 0
 VIEW McView
 INVARIANT TypeOK
 PROPERTY UnreadableIsError LessThanExact EveryExact ChangeExact OptimumExact ChanceCounted LogicExact LoopExact LoopFromAnywhere
